@@ -403,6 +403,7 @@ pub fn run(args: &Args) {
     );
 
     size_sweep(&mut rep, args, &ev, &strict);
+    shared_node_containers(&mut rep, args);
     for i in 0..args.n {
         let mut rng = Rng::derive(args.seed, args.shard + 4000, i);
         match i % 4 {
@@ -484,6 +485,35 @@ fn size_sweep(rep: &mut Report, args: &Args, ev: &Evaluator, strict: &Opts) {
                     json!({"expression": text, "size": n, "expected": shorten(format!("{:?}", want.as_ref().map(|v| v.to_string()).map_err(|e| e.class()))),
                            "got": shorten(format!("{:?}", got.map(|r| r.map(|v| v.to_string()).map_err(|e| e.to_string()))))}),
                 );
+            }
+        }
+    }
+}
+
+/// `contains` (and the equality behind it) on containers whose members are the very same nodes of the
+/// document under equal / different names and positions.
+fn shared_node_containers(rep: &mut Report, args: &Args) {
+    if args.shard != 0 {
+        return;
+    }
+    let doc = json!({"a": 5, "b": {"c": [1]}, "s": "x", "n": null});
+    for m in ["a", "b", "b.c", "s", "n"] {
+        for (text, want) in [
+            (format!("contains([{{p: {m}}}], {{q: {m}}})", m = m), false),
+            (format!("contains([{{p: {m}}}], {{p: {m}}})", m = m), true),
+            (format!("contains([[{m}]], [{m}])", m = m), true),
+            (format!("contains([[{m}, {m}]], [{m}])", m = m), false),
+            (format!("contains([{{p: {m}, q: a}}], {{p: a, q: {m}}})", m = m), m == "a"),
+            (format!("contains([{{p: {m}}}, {{q: {m}}}], {{q: {m}}})", m = m), true),
+            (format!("contains([{m}], {m})", m = m), true),
+        ] {
+            rep.evaluations += 1;
+            match guarded(|| jmespath::compile(&text).and_then(|e| e.search(rcvar_of(&doc)))) {
+                Ok(Ok(v)) if v.as_boolean() == Some(want) => rep.count("shared_node_containers_ok"),
+                other => rep.violation(
+                    "C02/wrong-value/fn=contains/shared-nodes",
+                    json!({"expression": text, "document": doc, "expected": want, "got": format!("{:?}", other.map(|r| r.map(|v| v.to_string()).map_err(|e| e.to_string())))}),
+                ),
             }
         }
     }
